@@ -184,6 +184,18 @@ func TestC13(t *testing.T) {
 			}
 			argv0 := ""
 			switch kind {
+			case "barename":
+				// a bare command name in a hand-built Cmd (no LookPath by the caller): exec runs the file of
+				// that name in the host's working directory; a file of the same name with the other content
+				// sits in a directory on PATH
+				name := fmt.Sprintf("c13bare-%d-%d", os.Getpid(), c.ID)
+				cwd, _ := os.Getwd()
+				writeExec(filepath.Join(cwd, name), at)
+				defer os.Remove(filepath.Join(cwd, name))
+				pd := c13PathDir()
+				writeExec(filepath.Join(pd, name), other)
+				defer os.Remove(filepath.Join(pd, name))
+				path = name
 			case "relative", "argv0":
 				// a relative Cmd.Path (Cmd.Dir unset: resolved against the host's working directory); for
 				// "argv0" the process is also given an argv[0] that names the OTHER file by its absolute path
@@ -343,4 +355,20 @@ func TestC13(t *testing.T) {
 		}
 		e.Ret("h", "Start", o)
 	})
+}
+
+var c13PathOnce sync.Once
+var c13PathDirName string
+
+// c13PathDir returns a directory of this host process that has been put in front of PATH.
+func c13PathDir() string {
+	c13PathOnce.Do(func() {
+		cwd, _ := os.Getwd()
+		d := filepath.Join(cwd, "c13path")
+		if err := os.MkdirAll(d, 0o755); err == nil {
+			c13PathDirName = d
+			os.Setenv("PATH", d+string(os.PathListSeparator)+os.Getenv("PATH"))
+		}
+	})
+	return c13PathDirName
 }
